@@ -111,15 +111,14 @@ def pixel_oracle(qm, cells, shape, case, site):
     otherwise"""
     out = []
     nx, ny = shape
-    vals = qmap_values(qm)
 
     def viol(clause, wit, detail):
         out.append(V(PROP, clause, site=site, witness=wit, detail=detail,
                      case=case, kind=case.get("kind", "hist")))
-    for k, (m, nwarn) in vals.items():
-        if m.shape != (ny, nx):
-            viol("pixel-value", k, f"map shape {m.shape} != {(ny, nx)}")
-            continue
+    # the curves' own current values are read *before* the map is asked
+    # for (asking for a map must not change what the curves hold)
+    expected = {}
+    for k in FEATS:
         exp = np.full((ny, nx), np.nan)
         expwarn = 0
         for idnt, (ix, iy) in zip(qm.group, cells):
@@ -138,6 +137,17 @@ def pixel_oracle(qm, cells, shape, case, site):
                     expwarn += 1
                 else:
                     exp[iy, ix] = r
+        expected[k] = (exp, expwarn)
+    before = [cn.indent_canon(g) for g in qm.group]
+    vals = qmap_values(qm)
+    if [cn.indent_canon(g) for g in qm.group] != before:
+        viol("map-changes-curve", "get_qmap", "computing the maps changed "
+             "the state of a curve (fit, columns or remembered rating)")
+    for k, (m, nwarn) in vals.items():
+        if m.shape != (ny, nx):
+            viol("pixel-value", k, f"map shape {m.shape} != {(ny, nx)}")
+            continue
+        exp, expwarn = expected[k]
         if not np.array_equal(m, exp, equal_nan=True):
             bad = np.argwhere(~((m == exp) | (np.isnan(m) & np.isnan(exp))))
             clause = "pixel-unit" if k == "cp" and np.nanmax(
@@ -315,7 +325,8 @@ def _check_group(grp, expect, cb, viol, enums=True):
             viol("enum-unique", "group", f"duplicate enums in {p}: {es}")
     if cb:
         arr = np.array(cb, dtype=float)
-        if np.any(np.diff(arr) < 0) or arr.min() < 0 or arr.max() > 1 \
+        if not np.all(np.diff(arr) >= 0) or not arr.min() >= 0 \
+                or not arr.max() <= 1 \
                 or arr[-1] != 1:
             viol("callback", "group", f"callback sequence {cb[:12]}... is "
                  "not non-decreasing within [0, 1] ending at 1")
@@ -419,6 +430,7 @@ class MapDriver(hist.Driver):
                                      "range_x": [-1e-10, 1e-10]}],
                          ["edit", i, "weight_cp", 2e-7],
                          ["rate", i],
+                         ["rate", i, "subset+lda"],
                          ["pre", i, P0]]
 
     def fresh(self):
@@ -432,6 +444,12 @@ class MapDriver(hist.Driver):
             o = ["F", op[2]]
         elif op[0] == "edit":
             o = ["E", op[2], op[3]]
+        elif op[0] == "rate" and len(op) > 2:
+            # a rating with a feature subset and the LDA flag
+            o = ["R", "Decision Tree", "zef18",
+                 ["feat_bin_size", "feat_con_apr_flatness",
+                  "feat_con_apr_size", "feat_con_bln_slope",
+                  "feat_con_idt_maxima_75perc", "feat_con_idt_sum"], True]
         elif op[0] == "rate":
             o = ["R", "Decision Tree", "zef18", None, None]
         else:
